@@ -45,14 +45,15 @@ MetricOf(e) ==
 P95(dur) == [kind |-> "agg", type |-> "p95", dur |-> dur]
 ViewsOf(n) == IF metric[n].found
               THEN [found |-> TRUE, node |-> Existing(n, [kind |-> "node"]), prod |-> Existing(n, [kind |-> "prod"]),
-                    a0 |-> Existing(n, P95(0)), a300 |-> Existing(n, P95(300))]
-              ELSE [found |-> FALSE, node |-> Zero, prod |-> Zero, a0 |-> Zero, a300 |-> Zero]
+                    a0 |-> Existing(n, P95(0)), a300 |-> Existing(n, P95(300)),
+                    g0 |-> Existing(n, [kind |-> "agg", type |-> "avg", dur |-> 0])]
+              ELSE [found |-> FALSE, node |-> Zero, prod |-> Zero, a0 |-> Zero, a300 |-> Zero, g0 |-> Zero]
 ExpectedObs == [n \in cfg.nodes |-> ViewsOf(n)]
 VEq(a, b) == \A d \in Dims : a[d] = b[d]
 ObsEq(o, x) == /\ DOMAIN o = DOMAIN x
                /\ \A n \in DOMAIN x : /\ o[n].found = x[n].found
                                       /\ VEq(o[n].node, x[n].node) /\ VEq(o[n].prod, x[n].prod)
-                                      /\ VEq(o[n].a0, x[n].a0) /\ VEq(o[n].a300, x[n].a300)
+                                      /\ VEq(o[n].a0, x[n].a0) /\ VEq(o[n].a300, x[n].a300) /\ VEq(o[n].g0, x[n].g0)
 \* non-vacuity statistics (only when VERIF_STATS is set; never part of a verdict): for every pod placed on a node that
 \* has a report, which clause decides whether the report reflects it, and how it counts for the prod view
 PlacedPairs == UNION {{<<n, u>> : u \in DOMAIN assigned[n]} : n \in {x \in cfg.nodes : metric[x].found}}
